@@ -48,6 +48,7 @@ type pushMsg struct {
 	slow   []bool
 	events []pushEvent
 	acked  bool // a success reply was sent
+	seq    int  // publish order
 }
 
 type Iv2 struct{ lo, hi time.Time }
@@ -66,6 +67,9 @@ type endpoint struct {
 	viol       []string
 	pushes     int
 	statuses   map[int]int
+	// ordered: the subscription has message ordering enabled
+	ordered     bool
+	orderChecks int
 }
 
 func (ep *endpoint) v(sig, f string, a ...any) {
@@ -133,6 +137,17 @@ func (ep *endpoint) RoundTrip(req *http.Request) (*http.Response, error) {
 		want := len(m.events) + 1
 		if env.DeliveryAttempt != want {
 			ep.v("envelope:delivery-attempt", "message %s: deliveryAttempt %d, this is push number %d", m.id[:8], env.DeliveryAttempt, want)
+		}
+		if ep.ordered && m.key != "" {
+			for _, p := range ep.msgs {
+				if p.key != m.key || p.seq >= m.seq {
+					continue
+				}
+				ep.orderChecks++
+				if !p.acked {
+					ep.v("ordered-push:overtook-predecessor", "message %s (key %q, published as number %d) was pushed while the earlier same-key message %s (number %d, %d pushes so far) has not been answered with a success", m.id[:8], m.key, m.seq, p.id[:8], p.seq, len(p.events))
+				}
+			}
 		}
 		if m.acked {
 			ep.v("pushed-after-success", "message %s pushed again (attempt %d) after a success reply", m.id[:8], env.DeliveryAttempt)
@@ -211,31 +226,47 @@ func attrsEq(a, b map[string]string) bool {
 	return true
 }
 
-func TestC19(t *testing.T) {
+func TestC19(t *testing.T) { pushBody(t, "C19", false) }
+
+// TestC05push: ordered delivery also binds the push path. The same scripts run on
+// a push subscription with message ordering enabled; the endpoint's ledger then
+// holds every POST of a keyed message against the earlier-published messages of
+// its key: each of them must have been answered with a success before. (With a
+// window above one and failing pushes in the scripts, this is where a pusher
+// that fetched, or kept, a successor would show.)
+func TestC05push(t *testing.T) { pushBody(t, "C05", true) }
+
+func pushBody(t *testing.T, prop string, ordered bool) {
 	cfg := evd.Env()
-	col := evd.New("C19", cfg)
+	col := evd.New(prop, cfg)
 	defer col.Flush()
 	n := cfg.N(160, 5000)
-	var pushes, failedPushes int64
+	if ordered {
+		n = cfg.N(96, 3000)
+	}
+	var pushes, failedPushes, orderChecks int64
 	statusSeen := map[int]bool{}
 	// (the last four make sure that both characters in which the standard and
 	// the URL-safe base64 alphabets differ occur: a run of four '?' / '~' puts one
 	// of them on a byte offset that is 2 mod 3)
 	payloads := []string{`"????"`, `"~~~~"`, `{"q":"ok????","dir":"~~~~"}`, `["¿ÿ¾","ÿÿÿÿ"]`, `{}`, `{"a":1}`, `"é世界 😀"`, `[1,2.5,"x",null]`, `1e400`, `"<script>&"`, ` { "ws" : [ 1 , 2 ] } `, `"` + strings.Repeat("z", 5000) + `"`}
 	for i := 0; i < n; i++ {
-		seed := cfg.CaseSeed("C19", i)
+		seed := cfg.CaseSeed(prop+"push", i)
+		if prop == "C19" {
+			seed = cfg.CaseSeed("C19", i)
+		}
 		if !cfg.Want(i, seed) {
 			continue
 		}
-		rig.SetWatchdogContext(fmt.Sprintf("C19 case %d", i))
+		rig.SetWatchdogContext(fmt.Sprintf("%s push case %d", prop, i))
 		rig.RunCase(t, seed, rig.Opts{}, func(e *rig.Env) {
 			r := e.Rand
 			topic, sub := "projects/p/topics/t", "projects/p/subscriptions/push"
 			mkTopic(e, topic)
-			mkSub(e, &pubsubpb.Subscription{Name: sub, Topic: topic, PushConfig: &pubsubpb.PushConfig{PushEndpoint: "http://endpoint.invalid/push"},
+			mkSub(e, &pubsubpb.Subscription{Name: sub, Topic: topic, PushConfig: &pubsubpb.PushConfig{PushEndpoint: "http://endpoint.invalid/push"}, EnableMessageOrdering: ordered,
 				RetryPolicy: &pubsubpb.RetryPolicy{MinimumBackoff: durationpb.New(2 * time.Second), MaximumBackoff: durationpb.New(5 * time.Second)}})
 			id := must(e.Client.Subscription.Query().Where(subscription.Name(sub)).OnlyID(e.Ctx))
-			ep := &endpoint{sub: sub, msgs: map[string]*pushMsg{}, statuses: map[int]int{}}
+			ep := &endpoint{sub: sub, msgs: map[string]*pushMsg{}, statuses: map[int]int{}, ordered: ordered}
 			// script kinds
 			kind := []string{"all-fast-success", "all-slow-success", "alternating", "failure-burst", "every-status", "ramp", "grow-then-fail", "grow-then-slow", "narrow-then-backlog"}[i%9]
 			nm := 4 + r.Intn(12)
@@ -322,6 +353,10 @@ func TestC19(t *testing.T) {
 					st := 100 + (i*37+k*13)%500
 					m.script, m.slow = []int{st}, []bool{r.Intn(5) == 0}
 				}
+				m.seq = len(ms)
+				if ordered && r.Intn(3) > 0 {
+					m.key = "k" // most messages share one key, so that chains form
+				}
 				ms = append(ms, m)
 				req.Messages = append(req.Messages, &pubsubpb.PubsubMessage{Data: m.data, Attributes: m.attrs, OrderingKey: m.key})
 			}
@@ -347,7 +382,19 @@ func TestC19(t *testing.T) {
 			done := make(chan error, 1)
 			go func() { done <- pusher.Go(ctx) }()
 			lo := time.Now()
-			publish := func(from, to int) {
+			var publish func(from, to int)
+			publish = func(from, to int) {
+				if ordered && to-from > 1 {
+					// the virtual clock stands still inside a call, and the order of
+					// same-key messages is recorded by their publish instants: one call
+					// per message, a millisecond apart (a real clock never stands still
+					// between two messages of a batch)
+					for k := from; k < to; k++ {
+						publish(k, k+1)
+						time.Sleep(time.Millisecond)
+					}
+					return
+				}
 				part := &pubsubpb.PublishRequest{Topic: topic, Messages: req.Messages[from:to]}
 				plo := time.Now()
 				ep.mu.Lock() // ids must be known before the first push arrives
@@ -463,6 +510,7 @@ func TestC19(t *testing.T) {
 				ep.v("ack-mismatch", "%d messages got a success reply but %d deliveries are completed", acked, completed)
 			}
 			pushes += int64(ep.pushes)
+			orderChecks += int64(ep.orderChecks)
 			seenSig := map[string]bool{}
 			for _, v := range ep.viol {
 				parts := strings.SplitN(v, "|", 2)
@@ -470,7 +518,11 @@ func TestC19(t *testing.T) {
 					continue
 				}
 				seenSig[parts[0]] = true
-				col.Violation(parts[0], fmt.Sprintf("[%s, %d messages] %s", kind, nm, parts[1]), map[string]any{"case_seed": seed, "script": kind, "messages": nm})
+				owner := "C19"
+				if strings.HasPrefix(parts[0], "ordered-push:") {
+					owner = "C05"
+				}
+				col.ViolationFor(owner, parts[0], fmt.Sprintf("[%s, %d messages] %s", kind, nm, parts[1]), map[string]any{"case_seed": seed, "script": kind, "messages": nm, "ordered": ordered})
 			}
 			col.Max("max_in_flight_seen", int64(ep.maxFlight))
 			var sts []int
@@ -487,5 +539,10 @@ func TestC19(t *testing.T) {
 	col.Add("ev_pushes_observed", pushes)
 	col.Add("ev_failed_pushes_observed", failedPushes)
 	col.Add("ev_distinct_final_statuses_this_shard", int64(len(statusSeen)))
+	if ordered {
+		col.Add("ev_pushes_held_against_an_earlier_same_key_message", orderChecks)
+		col.Add("relevant_events", orderChecks)
+		return
+	}
 	col.Add("relevant_events", pushes)
 }
